@@ -111,9 +111,9 @@ func genMatchers(r *rand.Rand) string {
 	n := 1 + r.Intn(3)
 	switch r.Intn(16) {
 	case 0:
-		n = 4 + r.Intn(5) // up to 8: still inside the UInt8 bitmask
+		n = 4 + r.Intn(5)
 	case 1:
-		n = 9 + r.Intn(2) // beyond it
+		n = 9 + r.Intn(4) // more than eight: the bitmask was a UInt8 before fix 052673d
 	}
 	var ms []string
 	for i := 0; i < n; i++ {
